@@ -19,6 +19,13 @@
 
   Theorems/C10.lean proves that every call of the first layer, after any history, equals `spec`
   of the abstract table of that history.
+
+  A call carries the class precedence list (`Hierarchy()`) of each required argument, not a class
+  name: the applicable methods are a function of those lists, and so is the cache key
+  (`buildSpecKey` joins the whole hierarchy of every required argument).  A class that is redefined
+  during a history, or instances of the old and of the new definition of one class name living side
+  by side, are therefore just calls with different lists.  `compute-applicable-methods`
+  (`Aux.compMethList`, a second copy of the nested walk with an accumulator) is modelled too.
 -/
 namespace SlipVerif.Dispatch
 
@@ -91,6 +98,8 @@ inductive Res where
   | noNext
   /-- not a call (defmethod / remove-method) -/
   | noCall
+  /-- the list returned by compute-applicable-methods: qualifier and body id of each method -/
+  | methods (l : List (Qual × Nat))
   deriving DecidableEq, Repr
 
 structure Out where
@@ -156,15 +165,20 @@ def callEff (eff : List Combo) : Out := continueFrom eff eff
 
 /-! ## the method table and the cache: association lists standing for Go maps -/
 
-def lookup {α : Type} : List (Key × α) → Key → Option α
+def lookup {κ α : Type} [DecidableEq κ] : List (κ × α) → κ → Option α
   | [], _ => none
   | (k', v) :: rest, k => if k' = k then some v else lookup rest k
 
-def erase {α : Type} : List (Key × α) → Key → List (Key × α)
+def erase {κ α : Type} [DecidableEq κ] : List (κ × α) → κ → List (κ × α)
   | [], _ => []
   | (k', v) :: rest, k => if k' = k then erase rest k else (k', v) :: erase rest k
 
-def insert {α : Type} (m : List (Key × α)) (k : Key) (v : α) : List (Key × α) := (k, v) :: erase m k
+def insert {κ α : Type} [DecidableEq κ] (m : List (κ × α)) (k : κ) (v : α) : List (κ × α) :=
+  (k, v) :: erase m k
+
+/-- the class precedence lists (`Hierarchy()`) of the required arguments of a call; also the cache
+    key (Go `buildSpecKey`: the names of each hierarchy joined with ' ', the arguments with '|') -/
+abbrev Precs := List (List Cls)
 
 abbrev Methods := List (Key × Combo)
 
@@ -195,11 +209,43 @@ def dfltOf (tC : Cls) (n : Nat) (ms : Methods) : Option Body :=
     if k = List.replicate n tC ∧ c.before = none ∧ c.after = none ∧ c.wrap = none then c.primary else none
   | _ => none
 
+/-! ### `compute-applicable-methods`: `Aux.compMethList` / `compMeths` -/
+
+/-- Go `methComp`: the accumulator of `compMeths` -/
+structure MethComp where
+  primary : Option Body
+  around : List Body
+  before : List Body
+  after : List Body
+  deriving DecidableEq, Repr
+
+def MethComp.empty : MethComp := ⟨none, [], [], []⟩
+
+/-- the body of the innermost loop of `compMeths` for one stored combination: the first primary
+    found is kept (`mc.primary == nil && c.Primary != nil`), the daemons are appended -/
+def compStep (mc : MethComp) (c : Combo) : MethComp :=
+  { primary := match mc.primary with | some b => some b | none => c.primary
+    before := mc.before ++ c.before.toList
+    after := mc.after ++ c.after.toList
+    around := mc.around ++ c.wrap.toList }
+
+/-- `Aux.compMeths`: the same nested walk as `collectMethods`, threading the accumulator -/
+def compMeths (ms : Methods) : List (List Cls) → Key → MethComp → MethComp
+  | [], pre, mc => match lookup ms pre with | some c => compStep mc c | none => mc
+  | h :: hs, pre, mc => h.foldl (fun mc c => compMeths ms hs (pre ++ [c]) mc) mc
+
+/-- `Aux.compMethList`: arounds, befores, the primary, afters with the index running downwards -/
+def compMethList (ms : Methods) (precs : Precs) : List (Qual × Nat) :=
+  let mc := compMeths ms precs [] MethComp.empty
+  mc.around.map (fun b => (Qual.around, b.id)) ++ mc.before.map (fun b => (Qual.before, b.id))
+    ++ mc.primary.toList.map (fun b => (Qual.primary, b.id))
+    ++ mc.after.reverse.map (fun b => (Qual.after, b.id))
+
 /-- Go `generic.Aux` -/
 structure Aux where
   methods : Methods
-  /-- effective methods keyed by the argument classes of earlier calls -/
-  cache : List (Key × List Combo)
+  /-- effective methods keyed by the class precedence lists of the arguments of earlier calls -/
+  cache : List (Precs × List Combo)
   /-- the fast path of `Aux.Call` -/
   dflt : Option Body
   deriving Repr
@@ -209,15 +255,14 @@ def Aux.init : Aux := ⟨[], [], none⟩
 inductive Op where
   | defmethod (q : Qual) (key : Key) (b : Body)
   | remove (q : Qual) (key : Key)
-  /-- a call with arguments whose classes are `cs` -/
-  | call (cs : List Cls)
+  /-- a call with arguments whose class precedence lists (`Hierarchy()`) are `precs` -/
+  | call (precs : Precs)
+  /-- `(compute-applicable-methods g args)` for arguments with these precedence lists -/
+  | methods (precs : Precs)
   deriving DecidableEq, Repr
 
-/-- The class table and the generic function's shape: `cpl c` is the class precedence list of
-    class `c` (`Hierarchy()` of an argument whose first element is `c`), `tC` the class `t`,
-    `n` the number of required arguments. -/
+/-- The generic function's shape: `tC` the class `t`, `n` the number of required arguments. -/
 structure Env where
-  cpl : Cls → List Cls
   tC : Cls
   n : Nat
 
@@ -232,16 +277,17 @@ def step (E : Env) (a : Aux) : Op → Aux × Out
     | some _ =>
       let ms := removeMethod a.methods q k
       (⟨ms, [], dfltOf E.tC E.n ms⟩, Out.nothing)
-  | .call cs =>
+  | .call precs =>
     match a.dflt with
     | some b => (a, ⟨[.run b.id], .val (some b.id)⟩)
     | none =>
-      match lookup a.cache cs with
+      match lookup a.cache precs with
       | some eff => (a, callEff eff)
       | none =>
-        let eff := collect a.methods (cs.map E.cpl) []
+        let eff := collect a.methods precs []
         if eff.isEmpty then (a, ⟨[], .noApplicable⟩)
-        else ({ a with cache := insert a.cache cs eff }, callEff eff)
+        else ({ a with cache := insert a.cache precs eff }, callEff eff)
+  | .methods precs => (a, ⟨[], .methods (compMethList a.methods precs)⟩)
 
 /-- run a history; the outcomes of its operations in order -/
 def runOps (E : Env) : Aux → List Op → Aux × List Out
@@ -270,6 +316,7 @@ def tableOf : List Op → Table → Table
   | .defmethod q k b :: ops, t => tableOf ops (t.set k q (some b))
   | .remove q k :: ops, t => tableOf ops (t.set k q none)
   | .call _ :: ops, t => tableOf ops t
+  | .methods _ :: ops, t => tableOf ops t
 
 /-- all specializer tuples applicable to arguments with the given precedence lists, most specific
     first: lexicographic over the arguments left to right, each in precedence-list order -/
@@ -298,9 +345,9 @@ def specArounds (inner : Out) (hasInner : Bool) : List Body → Out
 def specRun (ar be : List Body) (pr : Option Body) (af : List Body) : Out :=
   specArounds (specInner be pr af) (!be.isEmpty || pr.isSome || !af.isEmpty) ar
 
-/-- The property's statement of a call with arguments of classes `cs` under table `t`. -/
-def spec (E : Env) (t : Table) (cs : List Cls) : Out :=
-  let precs := cs.map E.cpl
+/-- The property's statement of a call with arguments whose class precedence lists are `precs`
+    under table `t`. -/
+def spec (t : Table) (precs : Precs) : Out :=
   let ar := applicable t precs .around
   let be := applicable t precs .before
   let pr := applicable t precs .primary
@@ -308,11 +355,20 @@ def spec (E : Env) (t : Table) (cs : List Cls) : Out :=
   if ar.isEmpty && be.isEmpty && pr.isEmpty && af.isEmpty then ⟨[], .noApplicable⟩
   else specRun ar be pr.head? af
 
+/-- the applicable methods in the order they run: every :around, every :before (most specific
+    first), the most specific primary, every :after least specific first -/
+def specMethodList (t : Table) (precs : Precs) : List (Qual × Nat) :=
+  (applicable t precs .around).map (fun b => (Qual.around, b.id))
+    ++ (applicable t precs .before).map (fun b => (Qual.before, b.id))
+    ++ (applicable t precs .primary).head?.toList.map (fun b => (Qual.primary, b.id))
+    ++ (applicable t precs .after).reverse.map (fun b => (Qual.after, b.id))
+
 /-- the outcomes the specification assigns to the operations of a history -/
-def specOuts (E : Env) : List Op → Table → List Out
+def specOuts : List Op → Table → List Out
   | [], _ => []
-  | .call cs :: ops, t => spec E t cs :: specOuts E ops t
-  | .defmethod q k b :: ops, t => Out.nothing :: specOuts E ops (t.set k q (some b))
-  | .remove q k :: ops, t => Out.nothing :: specOuts E ops (t.set k q none)
+  | .call precs :: ops, t => spec t precs :: specOuts ops t
+  | .methods precs :: ops, t => ⟨[], .methods (specMethodList t precs)⟩ :: specOuts ops t
+  | .defmethod q k b :: ops, t => Out.nothing :: specOuts ops (t.set k q (some b))
+  | .remove q k :: ops, t => Out.nothing :: specOuts ops (t.set k q none)
 
 end SlipVerif.Dispatch
